@@ -59,6 +59,44 @@ func runVarsCase(c *Ctx, e *ex, expr string) {
 				note = "an entry that was already in the collection was not kept with its value"
 			}
 		}
+		// (3) the same holds on a calculator with a history: the collection edited, or automatic variables
+		// switched on, between two SetExpression calls with the same text
+		complete := func(cl *calculator.ExpressionCalculator) string {
+			sn := map[string]int{}
+			for _, v := range cl.DefaultVariables().GetAll() {
+				sn[strings.ToUpper(v.Name())]++
+			}
+			for _, w := range want {
+				if sn[strings.ToUpper(w)] != 1 {
+					return fmt.Sprintf("%d entries for %q", sn[strings.ToUpper(w)], w)
+				}
+			}
+			return ""
+		}
+		if len(want) > 0 && note == "" {
+			h1 := calculator.NewExpressionCalculator()
+			h1.SetExpression(expr)
+			h1.DefaultVariables().RemoveByName(want[0])
+			h1.SetExpression(expr)
+			if m := complete(h1); m != "" {
+				note = "after SetExpression, RemoveByName(" + want[0] + ") on the default collection and SetExpression of the same text again, the default collection holds " + m
+			}
+			h2 := calculator.NewExpressionCalculator()
+			h2.SetExpression(expr)
+			h2.DefaultVariables().Clear()
+			h2.SetExpression(expr)
+			if m := complete(h2); m != "" && note == "" {
+				note = "after SetExpression, Clear of the default collection and SetExpression of the same text again, the default collection holds " + m
+			}
+			h3 := calculator.NewExpressionCalculator()
+			h3.SetAutoVariables(false)
+			h3.SetExpression(expr)
+			h3.SetAutoVariables(true)
+			h3.SetExpression(expr)
+			if m := complete(h3); m != "" && note == "" {
+				note = "after switching automatic variables on and setting the same text again, the default collection holds " + m
+			}
+		}
 		var names []string
 		for _, v := range all {
 			names = append(names, strRunes(v.Name()))
